@@ -11,6 +11,7 @@ extern size_t G_sk;
 #define CONTRACT_MEMCMP_SEQ
 #define CONTRACT_SECURE_MEMCMP_RECORDING
 #define CONTRACT_MEMXOR_RECORDING
+#define CONTRACT_CCM_CTR_INCR
 #include "sm4_ccm.h"
 #include "src/sm4_ccm.c"
 #include "stubs_stdio.h"
@@ -77,5 +78,20 @@ void h_sm4_ccm_decrypt(void)
 	OBSERVE_INT("ret", ret);
 	if (ret == 1) { CANARY("accepted"); }
 	if (ret != 1 && C.ivlen >= 7 && C.ivlen <= 13 && C.taglen == 8) CANARY("rejected-tag");
+	CANARY("returned");
+}
+
+typedef struct { uint8_t a[16]; size_t n; } inc_in;
+DECL_INPUT(inc_in);
+//@job name=sm4_ccm_ctr_n_incr props=C04 enforce=ctr_n_incr unwindset=ctr_n_incr.*:10 timeout=300
+void h_sm4_ccm_ctr_n_incr(void)
+{
+	INPUT(inc_in, I); ASSUME(I.n >= 2 && I.n <= 8);
+	MKBUF(a, I.a, 16);
+	ctr_n_incr(a, I.n);
+	NATIVE({ unsigned __int128 v0 = 0, v1 = 0, m; size_t i; for (i = 16 - I.n; i < 16; i++) { v0 = (v0 << 8) | I.a[i]; v1 = (v1 << 8) | a[i]; }
+		m = I.n >= 16 ? ~(unsigned __int128)0 : (((unsigned __int128)1 << (8 * I.n)) - 1);
+		CHECK(v1 == ((v0 + 1) & m) && memcmp(a, I.a, 16 - I.n) == 0, "low n bytes incremented as one big-endian integer, the rest unchanged"); })
+	OBSERVE_BYTES("a", a, 16);
 	CANARY("returned");
 }
